@@ -128,3 +128,11 @@ Proof. exact force64_wraps. Qed.
 Print Assumptions C14_int64.
 Print Assumptions C14_int64_range.
 Print Assumptions C14_int64_closed.
+
+(* ---- idempotence (session 5; Proofs/ForceIdem.v): a list forced to d with the filler lasts d (C14_filler_duration), so
+   forcing d again, with or without filler, changes nothing - no second filler is ever appended ---- *)
+From Astisub Require Import Proofs.ForceIdem.
+Theorem C14_idempotent : forall d dummy u u' l, wf_timeline l -> 0 < d ->
+  force_duration d dummy u' (force_duration d true u l) = force_duration d true u l.
+Proof. exact force_idem_filler. Qed.
+Print Assumptions C14_idempotent.
